@@ -201,6 +201,7 @@ func (ch *channel) SendAndClose(ctx async.Context, data []byte) status.Status {
 
 // Receive receives and returns a message, or an end status.
 func (ch *channel) Receive(ctx async.Context) ([]byte, status.Status) {
+	var wait <-chan struct{}
 	for {
 		// Poll channel
 		data, ok, st := ch.ReceiveAsync(ctx)
@@ -211,12 +212,19 @@ func (ch *channel) Receive(ctx async.Context) ([]byte, status.Status) {
 			return data, status.OK
 		}
 
+		// Arm the wait and poll again, a message may have arrived in between
+		if wait == nil {
+			wait = ch.ReceiveWait()
+			continue
+		}
+
 		// Await new message or close
 		select {
 		case <-ctx.Wait():
 			return nil, ctx.Status()
-		case <-ch.ReceiveWait():
+		case <-wait:
 		}
+		wait = nil
 	}
 }
 
